@@ -14,6 +14,7 @@ any surviving subset of files, truncated meta.json / CRC sidecar); an interrupte
 -/
 import RqModel.Lemmas.SnapFSFields
 import RqModel.Lemmas.SnapFSRemoveOnly
+import RqModel.Lemmas.SnapFSComplete
 import RqModel.Gen.PlanShapes
 namespace C07
 open RqModel.SnapFS
@@ -53,6 +54,34 @@ theorem reap_crash_safe {c : Ctx D} {s0 : FS D} {dw0 : Option Nat} (w : WF c s0 
       simp only [List.mem_singleton] at hx
       subst hx
       exact Or.inl rfl
+
+/-- The same for reapInternal as it is now, with its verification steps (`ensureVerified`, and
+`inputs.Check` before a consolidating plan is built — `fix:` 65f298a): whatever their outcome and
+wherever the reap is interrupted. They only read, and they come before the plan is written, so a
+failed verification is the reap stopped before its plan. -/
+theorem reap_crash_safe_with_verification {c : Ctx D} {s0 : FS D} {dw0 : Option Nat} (w : WF c s0 dw0)
+    (hW : c.W ≠ []) (hm : c.olds ≠ [] ∨ c.newers ≠ []) (verifiedOK inputsOK : Bool)
+    (cut : ReapCut) (cuts : List RecCut) :
+    ∃ s3 snaps3,
+      check c.A (cuts.foldl (recCrash c.A)
+        (reapCrashChecked c.A s0 c.newName c.verify verifiedOK inputsOK cut)) = .ok s3 ∧
+      scan s3 = .ok snaps3 ∧
+      observe c.A snaps3 = observe c.A c.snaps ∧
+      s3.plan = none ∧ s3.planTmp = false ∧
+      (∀ n d, s3.dir n = some d → d.tmp = false) ∧
+      (∀ x ∈ snaps3, x.db.isSome → x.crc = x.db ∨ snaps3 = c.snaps) := by
+  obtain ⟨cut', e⟩ := reapCrashChecked_eq c.A w.noPlanTmp c.newName c.verify verifiedOK inputsOK cut
+  rw [e]
+  exact reap_crash_safe w hW hm cut' cuts
+
+/-- a reap that passes its verification is the reap of the plan model; one that does not returns
+an error and (returning no state) has written nothing -/
+theorem reap_verification_passes_or_touches_nothing (A : DbAlg D) (s : FS D) (nn : Nat) (v vok iok : Bool) :
+    (∃ e, reapChecked A s nn v vok iok = .error e) ∨ reapChecked A s nn v vok iok = reap A s nn v := by
+  unfold reapChecked
+  cases reapGate s vok iok with
+  | error e => exact Or.inl ⟨e, rfl⟩
+  | ok u => exact Or.inr rfl
 
 /-- The remove-only reap (the newest full snapshot has no WALs and nothing after it; older
 snapshots exist): the same statement. The full snapshot is never touched; whatever point the
@@ -182,14 +211,21 @@ loop over newerSet, RemoveAll in a loop over olderSet, write-meta, verify (under
 guard), rename; the remove-only branch a RemoveAll loop over olderSet; the plan is written to disk
 before it is executed — on EVERY path: reapInternal starts executing a plan in exactly two places,
 the resume branch (the plan was just read from REAP_PLAN) and the final return after the top-level
-WriteToFile; no branch (in particular not the remove-only one) executes a plan that is not on disk. -/
+WriteToFile; no branch (in particular not the remove-only one) executes a plan that is not on disk.
+The verification steps of `reapGate` are where the model puts them: ensureVerified in the else
+branch of the resume test, inputs.Check under `len(walFiles) > 0` after the scan and before the
+plan is written. -/
 theorem plan_shape_from_source :
     RqModel.Gen.PlanShapes.reapConsolidate =
       [("AddCheckpoint", ""), ("AddCalcCRC32", ""), ("AddRemoveAll", "newerSet"), ("AddRemoveAll", "olderSet"),
        ("AddWriteMeta", ""), ("AddVerifyDB", "if"), ("AddRename", "")] ∧
     RqModel.Gen.PlanShapes.reapRemoveOnly = [("AddRemoveAll", "olderSet")] ∧
     RqModel.Gen.PlanShapes.reapWriteBeforeExecute = some true ∧
-    RqModel.Gen.PlanShapes.reapExecuteSites = ["resumes-plan-read-from-file", "after-plan-written"] := by decide
+    RqModel.Gen.PlanShapes.reapExecuteSites = ["resumes-plan-read-from-file", "after-plan-written"] ∧
+    RqModel.Gen.PlanShapes.reapFreshPathSteps =
+      ["ensureVerified", "getSnapshots", "inputs.Check", "plan.WriteToFile", "executeReapPlan"] ∧
+    RqModel.Gen.PlanShapes.reapVerifiesOnlyWhenNotResuming = true ∧
+    RqModel.Gen.PlanShapes.reapInputsCheckGuard = "len(walFiles) > 0" := by decide
 
 /-! ### non-vacuity: a concrete store satisfying every hypothesis -/
 section Example
